@@ -87,3 +87,6 @@ package didweb
 //@ func URLToDID
 //@   prop C18
 //@   call did.ParseDID #1 requires [host-and-port-as-the-url-has-them] didCallWith("percentEncodeString", 0, u.Host)
+// ... and its path segments are cut from the ESCAPED path of the URL (u.Path is decoded; u.RawPath is empty whenever the
+// encoding is the default one, e.g. for /a%20b).
+//@   call strings.CutSuffix #1 requires [segments-from-the-escaped-path] did(call (*url.URL).EscapedPath #1) && arg(0) == ret(call (*url.URL).EscapedPath #1)
